@@ -728,6 +728,16 @@ def r07_17(run, model):
             idx = [i for i, p in enumerate(ps) if re.search(r"HashMap<String,(tast::)?Ty>|&Subst\b", (p["ty"] or "").replace(" ", ""))]
             if idx and g.body is not None and re.search(r"(^|::)Ty$", (g.node.get("ret") or "").replace(" ", "")):
                 substs[g.name] = idx[0]
+            elif g.body is not None and re.search(r"(^|::)Ty$", (g.node.get("ret") or "").replace(" ", "")):
+                # ... or one that replaces a single named parameter: its TParam arm answers with one of the function's own parameters
+                pn = [p["pat"].get("name") for p in ps]
+                for m_ in S.find(g.body, "Match"):
+                    for a_ in m_["arms"]:
+                        if "TParam" in S.norm_ws(run.facts.text(rel, a_["pat"]["sp"])):
+                            hit = [i for i, nm_ in enumerate(pn) if nm_ and i > 0 and nm_ in S.idents(a_["body"]) and
+                                   re.search(r"(^|::|&)Ty$", (ps[i]["ty"] or "").replace(" ", ""))]
+                            if hit:
+                                substs[g.name] = hit[0]
         for f in model.fns(rel):
             if f.body is None:
                 continue
@@ -741,6 +751,16 @@ def r07_17(run, model):
                 loop = next((a for a in par.ancestors(c) if a["k"] in ("For", "While", "Loop")), None)
                 bad = False
                 why = "not in a loop"
+                # a fold is a loop whose carried value is the closure's first parameter
+                fold = next((a for a in par.ancestors(c) if a["k"] == "Closure" and (par.parent(a) or {}).get("k") == "MethodCall" and
+                             par.parent(a)["method"] in ("fold", "try_fold", "rfold") and any(x is a for x in par.parent(a)["args"])), None)
+                if loop is None and fold is not None and fold.get("inputs"):
+                    accs = set(S.pat_bindings(fold["inputs"][0] if fold["inputs"][0]["k"] != "PTuple" else fold["inputs"][0]["elems"][0]))
+                    mi = substs[S.callee_name(c)]
+                    others = [a for i, a in enumerate(c["args"]) if i != mi]
+                    fed = any(S.idents(o) & accs for o in others)
+                    bad = fed
+                    why = f"inside a fold; the accumulated type is substituted again each round: {fed}"
                 if loop is not None:
                     mi = substs[S.callee_name(c)]
                     marg = c["args"][mi] if len(c["args"]) > mi else None
